@@ -16,7 +16,7 @@
                  Template::set_tab_width                             (src/style.rs:645-651),
                  BarDisplay / RepeatedStringDisplay                  (src/style.rs:698-730),
                  PaddedStringDisplay::fmt                            (src/style.rs:738-773).
-    Line numbers refer to /repo at commit 6ff82af.
+    Line numbers refer to /repo at HEAD 7d42cff (style.rs, state.rs, progress_bar.rs unchanged since 6ff82af).
 
     The OnceLock cache of a TabExpandedString is explicit ([option text]); reading it through a
     shared reference fills it, so rendering and the getters return an updated state.
@@ -283,7 +283,11 @@ Definition key_text (w : N) (m : keymap) (k : N) : text :=
 
 (* what a rendering reads besides the two TabExpandedStrings *)
 Record rctx := mkrctx { c_env : env; c_d : N; c_tw : N; c_keys : keymap; c_gl : glyphs;
-                        c_tick : N; c_fin : bool }.
+                        c_tick : N; c_fin : bool;
+                        c_raw_ticks : bool   (* false: the code as it is.  true: the {spinner} arm of
+                                                /repo BEFORE commit 6ff82af, `buf.push_str(self.
+                                                current_tick_str(state))` - used by one regression
+                                                statement only, never by [run] / [ref_run] *) }.
 
 Definition rep (x : text) (n : N) : text := N.iter n (app x) [].
 
@@ -311,7 +315,8 @@ Definition static_buf (c : rctx) (h : ph) : text :=
   | KCustom k => key_text (c_tw c) (c_keys c) k                                          (* :259-260 *)
   | KWideBar | KWideMsg => [NUL]                                                         (* :263-266, 280-283 *)
   | KBar => format_bar c (match p_width h with Some w => w | None => DEFAULT_BAR_WIDTH end) (p_alt h)  (* :267-276 *)
-  | KSpinner => expand (tick_text (c_gl c) (c_tick c) (c_fin c)) (c_tw c)               (* :277-279: through
+  | KSpinner => if c_raw_ticks c then tick_text (c_gl c) (c_tick c) (c_fin c) else
+                expand (tick_text (c_gl c) (c_tick c) (c_fin c)) (c_tw c)               (* :277-279: through
                                    TabRewriter with the style's tab width AT RENDER TIME (since 6ff82af) *)
   | KNum id => e_num (c_env c) (c_d c) id (p_width h)                                    (* :286-364 *)
   | KMsg | KPrefix => []                                                                 (* see fmt_part *)
@@ -389,7 +394,7 @@ Definition is_finished (x : status) : bool := match x with InProgress => false |
 (** one rendering: the bar lines handed to the draw state and the state with the caches filled *)
 Definition format_state (E : env) (b : bar) : bar * list text :=
   let st := b_style b in
-  let c := mkrctx E (b_draws b) (s_tw st) (s_keys st) (s_gl st) (b_tick b) (is_finished (b_status b)) in
+  let c := mkrctx E (b_draws b) (s_tw st) (s_keys st) (s_gl st) (b_tick b) (is_finished (b_status b)) false in
   let '(f, parts') := fmt_parts c (mkfmt (b_msg b) (b_prefix b) [] [] WNone) (s_parts st) in
   let f' := match f_cur f with [] => f | _ => push_line c f end in     (* style.rs:397-399 *)
   (mkbar (b_tw b) (f_msg f') (f_prefix f') (mkstyle (s_tw st) (s_keys st) parts' (s_gl st)) (b_saved b)
@@ -524,15 +529,17 @@ Fixpoint ref_fmt (c : rctx) (emsg epre : text) (ps : list tpl) (cur : text) (lin
       end
   end.
 
-Definition ref_ctx (E : env) (r : rbar) : rctx :=
-  mkrctx E (r_draws r) (r_tw r) (r_keys r) (r_gl r) (r_tick r) (is_finished (r_status r)).
+Definition ref_ctx_gen (raw : bool) (E : env) (r : rbar) : rctx :=
+  mkrctx E (r_draws r) (r_tw r) (r_keys r) (r_gl r) (r_tick r) (is_finished (r_status r)) raw.
 
-(* the bar lines of a rendering of [r] *)
-Definition ref_lines (E : env) (r : rbar) : list text :=
-  let c := ref_ctx E r in
+(* the bar lines of a rendering of [r]; [raw = true]: with the {spinner} arm of before 6ff82af *)
+Definition ref_lines_gen (raw : bool) (E : env) (r : rbar) : list text :=
+  let c := ref_ctx_gen raw E r in
   let emsg := expand (r_msg r) (r_tw r) in
   let '(cur, lines, w) := ref_fmt c emsg (expand (r_prefix r) (r_tw r)) (r_tpl r) [] [] WNone in
   match cur with [] => lines | _ => ref_push c emsg cur lines w end.
+Definition ref_ctx : env -> rbar -> rctx := ref_ctx_gen false.
+Definition ref_lines : env -> rbar -> list text := ref_lines_gen false.
 
 Definition ref_render (E : env) (r : rbar) : rbar * list text :=
   match r_status r with
@@ -695,14 +702,23 @@ Fixpoint lookup_draw (d id : N) (w : option N) (m : list (N * N * option N * tex
   | (d', id', w', t) :: r =>
       if (d =? d') && (id =? id') && option_eqb N.eqb w w' then Some t else lookup_draw d id w r
   end.
+(* geometry of the bars: (rendering, number of cells) -> (filled, current, background); where the
+   table is silent the bar consists of background cells only (fraction 0) *)
+Fixpoint lookup_geom (d n : N) (m : list (N * N * (N * option N * N))) : option (N * option N * N) :=
+  match m with
+  | [] => None
+  | (d', n', g) :: r => if (d =? d') && (n =? n') then Some g else lookup_geom d n r
+  end.
 Definition chk_env (W : N) (wt : list (N * N)) (nums : list (N * text))
-                   (pernum : list (N * N * option N * text)) : env :=
+                   (pernum : list (N * N * option N * text))
+                   (geoms : list (N * N * (N * option N * N))) : env :=
   mkenv (cols_chk wt false) (fun _ => W)
         (fun d id w => match lookup_draw d id w pernum with Some t => t | None => lookup_or id nums [] end)
-        (fun _ n => (0, None, n)).
+        (fun d n => match lookup_geom d n geoms with Some g => g | None => (0, None, n) end).
 
-(* terminal width, width table, numeric-key tables, a history, what was observed after each operation *)
+(* terminal width, width table, numeric-key tables, bar geometries, a history, what was observed
+   after each operation *)
 Definition c16_check (c : N * list (N * N) * list (N * text) * list (N * N * option N * text)
-                          * list op * list out) : bool :=
-  let '(W, wt, nums, pernum, ops, obs) := c in
-  list_eqb out_eqb (snd (run (chk_env W wt nums pernum) bar_init ops)) obs.
+                          * list (N * N * (N * option N * N)) * list op * list out) : bool :=
+  let '(W, wt, nums, pernum, geoms, ops, obs) := c in
+  list_eqb out_eqb (snd (run (chk_env W wt nums pernum geoms) bar_init ops)) obs.
